@@ -94,6 +94,8 @@ def main():
                 verdict = "ok(expected-alarm)"
             if expect == "violation" and got == "silent" and name in expected_alarms(a.dir, "EXPECTED-SILENT.txt"):
                 verdict = "ok(expected-silent)"
+            if expect == "violation" and got == "silent" and a.tier == "quick" and name in expected_alarms(a.dir, "EXPECTED-SILENT-QUICK.txt"):
+                verdict = "ok(expected-silent-in-quick-tier)"
             rows.append((prop, name, f"{verdict}:{got}{'(concrete)' if concrete else ''} rc={rc} {base}", (viol[0] if viol else "")[:160]))
             print("#", *rows[-1], flush=True)
         finally:
